@@ -39,6 +39,7 @@ and the executable model follows it (`Tax.f64Repair`).
 import SmVerif.Lemmas.TaxResult
 import SmVerif.Lemmas.TaxKreport
 import SmVerif.Lemmas.TaxMulti
+import SmVerif.Lemmas.TaxSession
 
 namespace Sm.C19
 
@@ -331,6 +332,35 @@ theorem multi_query_conservation {κ : Type} [DecidableEq κ] (rp : Option (Repa
     have : gs.length ≠ 0 := by intro h; exact hne (List.length_eq_zero_iff.mp h)
     exact_mod_cast this
   exact div_self this
+
+/-! ### several writers on one `QueryTaxResult` (one `tax metagenome -F a b c` run) -/
+
+/-- `make_full_summary` (csv_summary) and `make_human_summary` (human) sort the shared per-rank lists in place; the
+content of every rank's list survives (any arithmetic) -/
+theorem sorting_writers_keep_content {α : Type} (A : Arith α) (r : Nat) (ess : List (List (Entry α ν))) :
+    SamePerRank (sessCsv A ess).1 ess ∧ SamePerRank (sessHuman A r ess).1 ess :=
+  ⟨sessCsv_state A ess, sessHuman_state A r ess⟩
+
+/-- **the writers are functions of the CONTENT of the summarised result**: on two states holding rank by rank the same
+entries — in particular the fresh state and the state after any sequence of csv_summary / human calls — csv_summary,
+krona, human and kreport print the same rows (as multisets; kreport needs at most one remainder per rank, which
+`build_summarized_result` guarantees).  Only the ORDER of rows can depend on the writers called before (finding
+C19.5); a writer that drops or duplicates a row after another writer ran contradicts this theorem. -/
+theorem writer_rows_depend_on_content_only (r : Nat) (T : Nat) (a b : List (List (Entry F64.SF String)))
+    (h : SamePerRank a b) (h1 : OneRemainder a) :
+    (sessCsv f64 a).2.Perm (sessCsv f64 b).2 ∧ (sessKrona f64 r a).Perm (sessKrona f64 r b) ∧
+    (sessHuman f64 r a).2.Perm (sessHuman f64 r b).2 ∧ (kreportRows T a).Perm (kreportRows T b) :=
+  ⟨sessCsv_rows f64 h, sessKrona_rows f64 r h, sessHuman_rows f64 r h, kreportRows_perm T h h1⟩
+
+/-- finding C19.5, kernel-checked on the model: after csv_summary ran, a rank whose unclassified remainder (11/20) is
+larger than its lineage (9/20) has the remainder FIRST in the shared list, so kreport / bioboxes list their rows in
+another order than on a fresh object -/
+theorem row_order_depends_on_prior_writers :
+    let ess : List (List (Entry F64.SF Nat)) :=
+      [[⟨0, [some 0], F64.SF.ofF (F64.divNat 9 20), F64.SF.ofF (F64.divNat 9 20), 9⟩, ⟨0, [], F64.SF.ofF (F64.divNat 11 20), F64.SF.ofF (F64.divNat 11 20), 11⟩]]
+    ess.map (fun es => es.map (fun e => e.lin.isEmpty)) = [[false, true]] ∧
+    (sessCsv f64 ess).1.map (fun es => es.map (fun e => e.lin.isEmpty)) = [[true, false]] := by
+  refine ⟨by decide, by decide +kernel⟩
 
 /-! ### output formats: every writer prints entries of the one summarised table -/
 
